@@ -303,8 +303,8 @@ def install(rec):
     preserve("gauge_all_random", output_kw=None)
     preserve("gauge_local", output_kw=None, extra_tol=1e-7)
     preserve("replace_with_svd", output_kw=None, extra_tol=1e-9,
-             domain=lambda self, where, left_inds, eps, **k: eps == 0.0 and k.get("method") == "svd"
-             and k.get("max_bond") is None)
+             domain=lambda self, where, left_inds, eps, **k: eps == 0.0
+             and k.get("method", "isvd") in ("svd", "isvd", "svds") and k.get("max_bond") is None)
     preserve("insert_gauge", output_kw=None, extra_tol=1e-7)
     preserve("compress_between", output_kw=None, post_form=no_growth, domain=untrunc)
     preserve("compress_all", output_kw=None, post_form=no_growth, domain=untrunc)
@@ -611,7 +611,9 @@ def one_rewrite(rng, tn, hyper):
         left = [ix for ix in sec_outer if rng.random() < 0.5] or sec_outer[:1]
         if len(left) == len(sec_outer):
             left = left[:-1]
-        r = tn.replace_with_svd(where, left, 0.0, method="svd", inplace=inplace)
+        # (the default method is the iterative 'isvd': with eps = 0 nothing may be lost either)
+        mkw = {"method": "svd"} if rng.random() < 0.6 else ({} if rng.random() < 0.7 else {"method": "svds"})
+        r = tn.replace_with_svd(where, left, 0.0, inplace=inplace, **mkw)
         return name, (r if r is not None else tn)
     if name in ("canonize_between", "compress_between", "insert_gauge", "tensor_pair"):
         tc_ = two_connected()
